@@ -276,7 +276,12 @@ class BaseNodeVisitor(ast.NodeVisitor):
                 replacement = Replacement([i + 1], [])
             else:
                 rgx = re.compile(rf"{re.escape(IGNORE_COMMENT)}(\[[^\s\]]+\])?")
-                replacement = Replacement([i + 1], [rgx.sub("", line)])
+
+                def strip_marker(match: "re.Match[str]", line: str = line) -> str:
+                    # keep whatever follows the marker a comment
+                    return "#" if line[match.end() :].strip() else ""
+
+                replacement = Replacement([i + 1], [rgx.sub(strip_marker, line)])
             self.show_error(
                 node, error_code=error_code, replacement=replacement, obey_ignore=False
             )
